@@ -23,6 +23,7 @@ from vplib import *
 PROP = "C12"
 KNOWN_ORDER = "index-order-by-name"
 KNOWN_STALE = "stale-converter-output-after-interrupted-import"
+KNOWN_STALE_JOB = "stale-converter-output-after-interrupted-converter-job"
 QUICK_STATES = 800
 
 
@@ -787,17 +788,18 @@ def conv_expected(text):
 
 
 def stale_conv_shape(state, metas, rec, vers, fails):
-    """The known finding: the crash hit an import after its index file was finalized but before its
-    completion ran (which invalidates the converter caches).  After the restart the new version of the
-    stream is visible, the cache still holds the output for the previous version and nothing ever
-    notices.  Shape: only converter-output failures; every wrong output is the correct output of an OLDER
-    version of that stream; a readable index file on disk was not yet published in memory."""
-    if not fails or any(k != "converter-output" for k, _ in fails) or state["meta"] is None or rec is None:
-        return False
-    m = metas[state["meta"]]
-    on_disk = {f["name"] for f in (rec.get("begin", {}).get("index_files") or []) if f["ok"]}
-    if not (on_disk - set(m.get("indexes") or [])):
-        return False
+    """The two known findings about converter output that is stale after a crash (a cache entry carries
+    no stream version, so after a restart nothing notices).  Common shape: only converter-output
+    failures, and every wrong output is the CORRECT output of an OLDER version of that stream.
+    Returns KNOWN_STALE      if a readable index file on disk was not yet published in memory (the crash hit
+                             an import between finalizing its file and its completion, which invalidates
+                             the caches),
+            KNOWN_STALE_JOB  if all index files were published but a converter job was in flight at the
+                             copy (it converts from the index snapshot taken at its start and its completion,
+                             which drops output of streams changed meanwhile, never ran),
+            None             otherwise (stale output with nothing in flight, garbage, lost entries)."""
+    if not fails or any(k != "converter-output" for k, _ in fails) or state["meta"] is None or rec is None or "end" not in rec:
+        return None
     r = rec["end"]
     for conv, streams in ((r.get("conv"), r["streams"]), (r.get("conv2"), r.get("streams2"))):
         for key, got in (conv or {}).items():
@@ -807,8 +809,16 @@ def stale_conv_shape(state, metas, rec, vers, fails):
                 continue
             older = [conv_expected(v) for v in vers.get(sid, []) if v != text]
             if got not in older:
-                return False
-    return True
+                return None
+    m = metas[state["meta"]]
+    on_disk = {f["name"] for f in (rec.get("begin", {}).get("index_files") or []) if f["ok"]}
+    if on_disk - set(m.get("indexes") or []):
+        return KNOWN_STALE
+    alt = state.get("alt")
+    around = [m] + [metas[j] for j in ([] if alt is None else (alt if isinstance(alt, list) else [alt]))]
+    if any(x.get("job_convert") for x in around):
+        return KNOWN_STALE_JOB
+    return None
 
 
 def order_defect_shape(state, metas, rec):
@@ -995,10 +1005,11 @@ def main(tier, seed, replay=None):
                         reported.add(KNOWN_ORDER)
                     known_hits.append(scen["name"])
                     continue
-            if stale_conv_shape(s, metas, rec, vers, fails) and KNOWN_STALE in known_ids:
-                if KNOWN_STALE not in reported:
-                    print("KNOWN-FINDING: property=C12 id=%s scenario=%s %s" % (KNOWN_STALE, scen["name"], fails[0][1]), flush=True)
-                    reported.add(KNOWN_STALE)
+            kf = stale_conv_shape(s, metas, rec, vers, fails)
+            if kf and kf in known_ids:
+                if kf not in reported:
+                    print("KNOWN-FINDING: property=C12 id=%s scenario=%s state=%s %s" % (kf, scen["name"], s["kind"].replace(" ", "-"), fails[0][1]), flush=True)
+                    reported.add(kf)
                 known_hits.append(scen["name"])
                 continue
             key = (scen["name"], fails[0][0] if fails else "model")
